@@ -54,6 +54,10 @@ def d1(ctx, prog):
     ctx.check(txt in (f'({shape_var}[0],-1)', f'({dparam}.shape[0],-1)'), 'C03-D1', key,
               f'data is flattened with reshape({norm(arg)}), not (n, -1): words are not kept one per column in C order',
               'data flattened to (n, -1), original shape remembered', upd.where(reshape))
+    def c_order(call):
+        return all(k.arg != 'order' or (isinstance(k.value, ast.Constant) and k.value.value == 'C') for k in call.keywords)
+    ctx.check(c_order(reshape.value), 'C03-D1', key + ' order', f'`{norm(reshape.value)[:70]}` does not flatten in C order: with Fortran-ordered data the words are enumerated in '
+              f'another order than compute() restores', 'flattened in C order', upd.where(reshape))
     marker = self_attr(stored.targets[0])
     # passes the flattened data on
     ctx.check(stmts.index(reshape) < min(i for i, s in enumerate(stmts) if any(isinstance(c, ast.Call) and norm(c.func) in ('self._initialize', 'self._update', 'self._check') for c in ast.walk(s))),
@@ -69,6 +73,7 @@ def d1(ctx, prog):
     ctx.check(a is not None and norm(a).replace(' ', '') == want, 'C03-D1', key,
               f'compute() reshapes the result to `{norm(a) if a is not None else "?"}`, not to {want}: the (...word dims..., sample) layout of the input is not restored',
               f'result reshaped to {want}', comp.where(rs[0]))
+    ctx.check(c_order(rs[0]), 'C03-D1', key + ' order', 'the restoring reshape is not in C order', 'restored in C order', comp.where(rs[0]))
     ctx.check(norm(rs[0].func.value) == 'self._compute()', 'C03-D1', key + ' operand', 'the reshape is not applied to the _compute() result', 'applied to self._compute()', comp.where(rs[0]))
     pm = astutil.parents(comp.node)
     g = astutil.guards(rs[0], pm)
